@@ -218,6 +218,7 @@ func Main() {
 	}
 	var replay, worker string
 	startAfter := int64(-1)
+	onlyIndex = -1
 	for i := 1; i < len(args); i++ {
 		switch args[i] {
 		case "--tier":
@@ -232,6 +233,9 @@ func Main() {
 		case "--start-after":
 			i++
 			startAfter, _ = strconv.ParseInt(args[i], 10, 64)
+		case "--only-index":
+			i++
+			onlyIndex, _ = strconv.ParseInt(args[i], 10, 64)
 		case "quick", "thorough":
 			tier = args[i]
 		}
@@ -246,6 +250,9 @@ func Main() {
 		os.Exit(runParent(c, tier, seed))
 	}
 }
+
+// onlyIndex >= 0: the worker runs exactly that enumeration index (confirmation of a fatal exit in a fresh process)
+var onlyIndex int64 = -1
 
 func runReplay(c *Check, path string) int {
 	b, err := os.ReadFile(path)
@@ -373,7 +380,11 @@ func runWorker(c *Check, tier string, seed int64, spec string, startAfter int64)
 		if stop {
 			return
 		}
-		if idx%int64(wn) != int64(wi) || idx <= startAfter {
+		if onlyIndex >= 0 {
+			if idx != onlyIndex {
+				return
+			}
+		} else if idx%int64(wn) != int64(wi) || idx <= startAfter {
 			return
 		}
 		if only != "" && !strings.Contains(stratum, only) {
@@ -406,6 +417,14 @@ func runWorker(c *Check, tier string, seed int64, spec string, startAfter int64)
 		wdMu.Lock()
 		wdIdx = -1
 		wdMu.Unlock()
+		if sum.Evaluations&15 == 0 {
+			// memory hygiene: a big parse leaves ~1 GB of garbage behind; give it back before the next case is blamed for it
+			var ms runtime.MemStats
+			runtime.ReadMemStats(&ms)
+			if ms.HeapSys-ms.HeapReleased > 1<<30 {
+				debug.FreeOSMemory()
+			}
+		}
 		sum.Evaluations++
 		sum.Strata[stratum]++
 		if res.Nontrivial {
@@ -476,12 +495,13 @@ func sameSigs(a, b []Violation) bool {
 // ---------------------------------------------------------------- parent
 
 type parentState struct {
-	mu         sync.Mutex
-	viol       map[string][]Violation // by signature
-	flaky      []string
-	sums       []workerSummary
-	fatals     int
-	machineErr []string
+	mu          sync.Mutex
+	viol        map[string][]Violation // by signature
+	flaky       []string
+	sums        []workerSummary
+	fatals      int
+	unconfirmed int
+	machineErr  []string
 }
 
 func classifyFatal(stderr string, code int) string {
@@ -583,6 +603,37 @@ func runParent(c *Check, tier string, seed int64) int {
 		wg.Wait()
 	}
 	return finish(c, tier, seed, st, time.Since(t0))
+}
+
+// confirmAlone re-runs one enumeration index in a fresh worker; true = it completed normally.
+func confirmAlone(c *Check, self, tier string, seed int64, idx int64, ph Phase) (bool, []Violation) {
+	if ph.Exe != "" {
+		self = filepath.Join(VerifDir, "bin", ph.Exe)
+	}
+	cmd := exec.Command(self, c.ID, "--tier", tier, "--worker", "0/1", "--only-index", strconv.FormatInt(idx, 10))
+	gmp := "GOMAXPROCS=1"
+	if ph.Procs > 0 {
+		gmp = "GOMAXPROCS=" + strconv.Itoa(ph.Procs)
+	}
+	cmd.Env = append(os.Environ(), gmp, "VERIF_SEED="+strconv.FormatInt(seed, 10), "GOTRACEBACK=single", "VERIF_ONLY=", "VERIF_SKIP=")
+	if ph.NoRlimit {
+		cmd.Env = append(cmd.Env, "VERIF_NO_RLIMIT=1")
+	}
+	cmd.Env = append(cmd.Env, ph.Env...)
+	out, err := cmd.Output()
+	if err != nil || !bytes.Contains(out, []byte("\nS {")) {
+		return false, nil
+	}
+	var vs []Violation
+	for _, ln := range bytes.Split(out, []byte("\n")) {
+		if len(ln) > 2 && ln[0] == 'V' {
+			var v Violation
+			if json.Unmarshal(ln[2:], &v) == nil {
+				vs = append(vs, v)
+			}
+		}
+	}
+	return true, vs
 }
 
 func findCase(c *Check, tier string, seed int64, want int64) json.RawMessage {
@@ -771,15 +822,16 @@ func finish(c *Check, tier string, seed int64, st *parentState, wall time.Durati
 	}
 	// evidence
 	cov := map[string]any{
-		"evaluations":         total.Evaluations,
-		"distinct_nontrivial": total.Nontrivial,
-		"rule":                c.Rule,
-		"samples":             toAny(total.Samples),
-		"exhaustive":          doneAll && !machine,
-		"strata":              total.Strata,
-		"outcome_classes":     len(outcomes),
-		"known_findings_seen": knownSeen,
-		"worker_restarts":     st.fatals,
+		"evaluations":                      total.Evaluations,
+		"distinct_nontrivial":              total.Nontrivial,
+		"rule":                             c.Rule,
+		"samples":                          toAny(total.Samples),
+		"exhaustive":                       doneAll && !machine,
+		"strata":                           total.Strata,
+		"outcome_classes":                  len(outcomes),
+		"known_findings_seen":              knownSeen,
+		"worker_restarts":                  st.fatals,
+		"fatal_exits_not_reproduced_alone": st.unconfirmed,
 	}
 	for k, v := range total.Stats {
 		cov[k] = v
